@@ -40,7 +40,14 @@ def make_tree(rnd, root, gitignores=True, symlinks=False, toolignore=False, big=
                 fh.write("\n".join(lines) + "\n")
         if toolignore and d == "" and rnd.random() < 0.7:
             with open(os.path.join(root, ".flowmarkignore"), "w") as fh:
-                fh.write("\n".join(rnd.sample(["ign.md", "docs/", "*.tmp.md", "sub/b.md", "/a.md"], 2)) + "\n")
+                if rnd.random() < 0.25:
+                    fh.write(rnd.choice(["", "# no rules yet\n", "\n   \n# c\n"]))       # a rule-less file still is the nearest one
+                else:
+                    fh.write("\n".join(rnd.sample(["ign.md", "docs/", "*.tmp.md", "sub/b.md", "/a.md", "  b.md", "# x.md"], 2)) + "\n")
+    if toolignore and rnd.random() < 0.5:
+        # an ignore file above the tree: it applies only when the tree's root has none
+        with open(os.path.join(os.path.dirname(root), ".flowmarkignore"), "w") as fh:
+            fh.write("\n".join(rnd.sample(["x.md", "README.md", "c.MD", "b.md"], 2)) + "\n")
     if symlinks:
         outside = root + "-outside"
         os.makedirs(outside, exist_ok=True)
@@ -52,6 +59,11 @@ def make_tree(rnd, root, gitignores=True, symlinks=False, toolignore=False, big=
         try:
             os.symlink(os.path.join(outside, "out.md"), os.path.join(root, "linkfile.md"))
             entries["linkfile.md"] = "link"
+            if big:
+                with open(os.path.join(outside, "big.md"), "w") as fh:
+                    fh.write("x" * 250)
+                os.symlink(os.path.join(outside, "big.md"), os.path.join(root, "biglink.md"))
+                entries["biglink.md"] = "link"
             os.symlink(os.path.join(outside, "odir"), os.path.join(root, "linkdir"))
             entries["linkdir"] = "link"
             if "a.md" in entries:
